@@ -1,6 +1,7 @@
 """ Manager for file backups for remodeling tools. """
 
 import os
+import re
 import json
 import shutil
 from datetime import datetime
@@ -59,6 +60,10 @@ class BackupManager:
         if not backup_name:
             backup_name = self.DEFAULT_BACKUP_NAME
         if self.backups_dict and backup_name in self.backups_dict:
+            return False
+        # Another spelling of an existing name ('./x', 'x/') or a backup made after this manager was built
+        # resolves to a directory that is already there: an existing backup is never overwritten.
+        if os.path.exists(os.path.realpath(os.path.join(self.backups_path, backup_name))):
             return False
         backup = {}
         time_stamp = f"{str(datetime.now())}"
@@ -238,7 +243,8 @@ class BackupManager:
 
         base = os.path.basename(file_path)
         for task in task_names:
-            if ('task_' + task) in base:
+            # The whole task name: 'go' must not select 'task_gonogo'.
+            if re.search('task_' + re.escape(task) + r'(?![A-Za-z0-9])', base):
                 return task
         else:
             return ''
